@@ -697,7 +697,10 @@ def run_check(pid, tier, seed, replay=None):
     sp_stats = None
     if replay:
         rl = [l for l in open(replay).read().split("\n") if l.strip() and not l.startswith("#")]
-        if rl:
+        if rl and P.get("special") == "c14" and any(l.startswith("X stdout") for l in rl):
+            for why in special.replay_c14(ctx, rl):
+                fails.append(("replay", seed, {"case": "-", "code": 0, "cfg": "-", "op": -1, "why": why}, rl))
+        elif rl:
             do_script("replay", seed, rl, "replay")
         for (fam, sd, f, cl) in fails:
             vc.log("replay: property %s FAILS on this input: %s" % (pid, f.get("why") or CLAUSE.get(f["code"], "")))
